@@ -5,13 +5,16 @@ use vcore::drive::{prop_par, Verdict};
 use vcore::rt::{self, digest_str, Acc, Args, Report};
 use vcore::sgr::{self, MColor, MStyle};
 
-const RULE: &str = "Inputs: exhaustively all ';'-lists of 1..3 codes over 0..=110 and every extended-colour form (38/48/58 ;5;n and ;2;r;g;b, and their truncated prefixes at the end of a list) in every position of short lists; seeded random well-formed lists of up to 40 codes with leading zeros, and long lists of 15..1027 fields around powers of two; out-of-range numbers congruent to a code modulo 2^8/2^16/2^32/2^64; malformed inputs (empty fields, signs, spaces, > 255, huge numbers, non-ASCII digits, trailing ';', arbitrary Unicode). Oracle: a reference fold of the SGR table of the property over the default style; None for '', '0', '00' and for anything that is not a list of decimal numbers <= 255. Excluded as undetermined (counted): an explicit '+', and a 38/48/58 that is followed by something other than a (possibly truncated-at-the-end) ;5;n / ;2;r;g;b. Non-trivial = at least 2 codes, or a reset after a set, or a rejected input (distinct by input string).";
+const RULE: &str = "Inputs: exhaustively all ';'-lists of 1..3 codes over 0..=110 and every extended-colour form (38/48/58 ;5;n and ;2;r;g;b) in every position of short lists; seeded random well-formed lists of up to 40 codes with leading zeros, and long lists of 15..1027 fields around powers of two; out-of-range numbers congruent to a code modulo 2^8/2^16/2^32/2^64; malformed inputs (empty fields, signs, spaces, > 255, huge numbers, non-ASCII digits, trailing ';', arbitrary Unicode). Oracle: a reference fold of the SGR table of the property over the default style; None for '', '0', '00' and for anything that is not a list of decimal numbers <= 255. Excluded as undetermined (counted): an explicit '+'. A 38/48/58 that is not followed by a complete ;5;n / ;2;r;g;b (truncated at the end of the list, or followed by something else) must be accepted, but what it denotes is not asserted. Non-trivial = at least 2 codes, or a reset after a set, or a rejected input (distinct by input string).";
 
 #[derive(Debug, PartialEq)]
 enum Ref {
     Reject,
     NoStyle,
     Style(MStyle),
+    /// a list of numbers in range, so it must be accepted - but what it denotes is not determined by
+    /// the statement (an extended-colour introducer that is not followed by one of the two listed forms)
+    AnyStyle(&'static str),
     Undetermined(&'static str),
 }
 
@@ -86,9 +89,11 @@ fn reference(s: &str) -> Ref {
                         i += 4;
                         Some(MColor::Rgb(*r, *g, *b))
                     }
-                    // truncated at the very end of the list: the style so far
-                    [] | [5] | [2] | [2, _] | [2, _, _] => return Ref::Style(st),
-                    _ => return Ref::Undetermined("malformed-extended-colour"),
+                    // 38/48/58 not followed by a complete ;5;n or ;2;r;g;b: the statement lists only the
+                    // two complete forms (an implementation may stop there, or ignore the introducer as an
+                    // unknown code and go on)
+                    [] | [5] | [2] | [2, _] | [2, _, _] => return Ref::AnyStyle("truncated-extended-colour"),
+                    _ => return Ref::AnyStyle("malformed-extended-colour"),
                 };
                 match c {
                     38 => st.fg = col,
@@ -113,6 +118,13 @@ fn check(s: &str, acc: &mut Acc) -> Result<bool, String> {
     let ncodes = s.split(';').count();
     let mut nontrivial = ncodes >= 2;
     match (&got, &want) {
+        (Some(_), Ref::AnyStyle(why)) => {
+            acc.class(&format!("accepted-result-undetermined:{why}"));
+            nontrivial = false;
+        }
+        (None, Ref::AnyStyle(why)) => {
+            return Err(format!("parse({s:?}) = None but it is a list of numbers in 0-255 ({why}): it must be accepted"));
+        }
         (None, Ref::Reject) => nontrivial = true,
         (None, Ref::NoStyle) => {}
         (Some(g), Ref::Style(w)) => {
@@ -144,7 +156,7 @@ fn arb_code() -> BoxedStrategy<String> {
 }
 
 fn arb_list() -> BoxedStrategy<String> {
-    (proptest::collection::vec(arb_code(), 1..=40), prop::sample::select(vec!["", "", "", ";38", ";48;5", ";58;2", ";38;2;1", ";48;2;1;2"]))
+    (proptest::collection::vec(arb_code(), 1..=40), prop_oneof![8 => Just(""), 1 => prop::sample::select(vec![";38", ";48;5", ";58;2", ";38;2;1", ";48;2;1;2"])])
         .prop_map(|(v, tail)| format!("{}{}", v.join(";"), tail))
         .boxed()
 }
